@@ -15,6 +15,9 @@ Lemma simple_kind_facts : forall k, kind_in k tbl_TYPE_SPEC_SIMPLE = true ->
   kind_in k tbl_DECL_START = true.
 Proof. intros k H. destruct k; vm_compute in H; try discriminate H; vm_compute; repeat split. Qed.
 
+Lemma decl_start_not_lbrace : forall k, kind_in k tbl_DECL_START = true -> kind_eqb k K_LBRACE = false.
+Proof. intros k H. destruct k; vm_compute in H; try discriminate H; reflexivity. Qed.
+
 Lemma rparen_stops_spec : kind_eqb K_RPAREN K_uALIGNAS = false /\ kind_eqb K_RPAREN K_uATOMIC = false /\
   kind_in K_RPAREN tbl_TYPE_QUALIFIER = false /\ kind_in K_RPAREN tbl_TYPE_SPEC_SIMPLE = false /\ kind_eqb K_RPAREN K_TYPEID = false /\
   (kind_eqb K_RPAREN K_STRUCT || kind_eqb K_RPAREN K_UNION) = false /\ kind_eqb K_RPAREN K_ENUM = false.
@@ -120,6 +123,48 @@ Proof.
     + rewrite Hsaw. unfold st2. cbn [ss_saw_type]. rewrite orb_true_r. reflexivity.
 Qed.
 
+(* ---- the type names of the language: a run of simple type specifiers, or one typedef name ---- *)
+Definition st0 : specst P := mkSS P None false false None.
+Definition TyRun (kvs: list (kind * str)) : Prop :=
+  forall (s: pstate) le (stop: tok) l0, Spell le kvs -> Up s (le ++ stop :: l0) -> tk stop = K_RPAREN ->
+  exists f0 ns st' s', (forall f, f0 <= f -> p_spec_loop P f false st0 s = Ok (st', s')) /\ Up s' (stop :: l0) /\ Ran P s s' (length le) /\
+    IdNodes ns (map snd kvs) /\ ss_spec P st' = fold_left (add_type P) ns (ss_spec P st0) /\
+    ss_saw_type P st' = (ss_saw_type P st0 || negb (match ns with [] => true | _ => false end)).
+Definition TyOK (kvs: list (kind * str)) : Prop :=
+  kvs <> [] /\ (exists k v r, kvs = (k, v) :: r /\ kind_in k tbl_DECL_START = true) /\ TyRun kvs.
+
+Lemma simple_tyok : forall kvs, kvs <> [] -> Forall (fun kv => kind_in (fst kv) tbl_TYPE_SPEC_SIMPLE = true) kvs -> TyOK kvs.
+Proof.
+  intros kvs Hne HF. split; [exact Hne|]. split.
+  - destruct kvs as [|[k v] r]; [congruence|]. exists k, v, r. split; [reflexivity|]. pose proof (Forall_inv HF) as Hk. cbn [fst] in Hk.
+    exact (proj2 (proj2 (proj2 (simple_kind_facts k Hk)))).
+  - intros s le stop l0 HS HU Hst. exact (spec_loop_run kvs HF st0 s le stop l0 HS HU Hst).
+Qed.
+
+Lemma typeid_tyok : forall v, TyOK [(K_TYPEID, v)].
+Proof.
+  intros v. split; [discriminate|]. split; [exists K_TYPEID, v, []; split; reflexivity|].
+  intros s le stop l0 HS HU Hst.
+  destruct (RoundTrip.Spell_cons_inv P _ _ _ _ HS) as [t [le' [-> [Hkt [Hvt HS']]]]]. apply (RoundTrip.Spell_nil_inv P) in HS'. subst le'. cbn [app] in HU.
+  destruct (peek_up P s t _ HU) as [s1 [H1 [HU1 HC1]]].
+  destruct (advance_up P s1 t _ HU1) as [s2 [H2 [HU2 HC2]]].
+  set (c2 := mkCoord P (curfile P s2) (tp t)).
+  set (st2 := mkSS P (add_type P None (mkIdType P [tv t] (Some c2))) true false (Some (mkCoord P (curfile P s1) (tp t)))).
+  destruct (spec_loop_run [] (Forall_nil _) st2 s2 [] stop l0 eq_refl HU2 Hst) as [f0 [ns [st' [s3 [H3 [HU3 [HR3 [Hns [Hsp Hsaw]]]]]]]]].
+  inversion Hns. subst ns. cbn [fold_left] in Hsp.
+  exists (S f0), [mkIdType P [tv t] (Some c2)], st', s3.
+  split; [|split; [exact HU3|split; [cost_tac|split; [|split]]]].
+  - intros f Hf. destruct f as [|f]; [lia|]. rewrite spec_loop_eq. unfold bind at 1. rewrite H1. cbv zeta. rewrite Hkt.
+    change (kind_eqb K_TYPEID K_uALIGNAS) with false. change (kind_eqb K_TYPEID K_uATOMIC) with false. cbv iota.
+    unfold bind at 1. unfold ret at 1. unfold bind at 1. rewrite tok_coord_eq. cbv iota.
+    change (kind_in K_TYPEID tbl_TYPE_QUALIFIER) with false. cbn [andb]. change (kind_in K_TYPEID tbl_TYPE_SPEC_SIMPLE) with false.
+    change (kind_eqb K_TYPEID K_TYPEID) with true. cbv iota. cbn [st0 ss_saw_type].
+    unfold bind at 1. rewrite H2. unfold bind at 1. rewrite tcoord_eq. apply H3. lia.
+  - cbn [map snd]. constructor; [exists c2; rewrite Hvt; reflexivity|constructor].
+  - rewrite Hsp. reflexivity.
+  - rewrite Hsaw. reflexivity.
+Qed.
+
 (* ---- _fix_decl_name_type on the Typename of a cast / sizeof ---- *)
 Lemma WF_S : exists n, WF = S (S (S n)).
 Proof. eexists. reflexivity. Qed.
@@ -210,13 +255,13 @@ Definition tn_emb (vs: list str) : value unit :=
 Lemma strip_strs : forall vs, map (@strip (coord P)) (map (fun v => VStr v) vs) = map (fun v => VStr v) vs.
 Proof. induction vs as [|v vs IH]; [reflexivity|]. cbn [map strip]. rewrite IH. reflexivity. Qed.
 
-Lemma type_name_run : forall kvs, kvs <> [] -> Forall (fun kv => kind_in (fst kv) tbl_TYPE_SPEC_SIMPLE = true) kvs ->
+Lemma type_name_run : forall kvs, TyOK kvs ->
   forall (s: pstate) le (stop: tok) l0, Spell le kvs -> Up s (le ++ stop :: l0) -> tk stop = K_RPAREN ->
   exists f0 N s', (forall f, f0 <= f -> p_type_name P f s = Ok (N, s')) /\ Up s' (stop :: l0) /\ Ran P s s' (length le) /\
     strip N = tn_emb (map snd kvs).
 Proof.
-  intros kvs Hne HF s le stop l0 HS HU Hst.
-  destruct (spec_loop_run kvs HF (mkSS P None false false None) s le stop l0 HS HU Hst) as [f0 [ns [st' [s1 [H1 [HU1 [HR1 [Hns [Hsp Hsaw]]]]]]]]].
+  intros kvs (Hne & _ & HR) s le stop l0 HS HU Hst.
+  destruct (HR s le stop l0 HS HU Hst) as [f0 [ns [st' [s1 [H1 [HU1 [HR1 [Hns [Hsp Hsaw]]]]]]]]]. unfold st0 in H1, Hsp, Hsaw.
   destruct (ado_none s1 stop l0 HU1 Hst) as [s2 [H2 [HU2 HS2]]].
   destruct kvs as [|[k0 v0] kvs']; [congruence|]. cbn [map snd] in Hns.
   inversion Hns as [|n0 v0' ns' vs' [c0 En0] Hns' E1]. subst.
@@ -232,23 +277,22 @@ Proof.
 Qed.
 
 (* ---- `( type-name )`: the speculative attempt succeeds ---- *)
-Lemma tptn_type : forall kvs, kvs <> [] -> Forall (fun kv => kind_in (fst kv) tbl_TYPE_SPEC_SIMPLE = true) kvs ->
+Lemma tptn_type : forall kvs, TyOK kvs ->
   forall (s: pstate) (lp: tok) le (rpt: tok) l0, tk lp = K_LPAREN -> Spell le kvs -> tk rpt = K_RPAREN -> Up s (lp :: le ++ rpt :: l0) ->
   exists f0 N s', (forall f, f0 <= f -> try_paren_type_name P f s = Ok (Some (N, idx P s, lp), s')) /\ Up s' l0 /\
     Ran P s s' (S (S (length le))) /\ strip N = tn_emb (map snd kvs).
 Proof.
-  intros kvs Hne HF s lp le rpt l0 Hlp HS Hrp HU.
+  intros kvs HT s lp le rpt l0 Hlp HS Hrp HU. pose proof HT as (Hne & [k0 [v0 [kvs' [Ekvs Hk0]]]] & _).
   assert (Hlpk: kind_eqb (tk lp) K_LPAREN = true) by (rewrite Hlp; reflexivity).
   destruct (accept_hit P s lp _ K_LPAREN HU Hlpk) as [s1 [H1 [HU1 HC1]]].
   (* the first token of the type name starts a declaration *)
-  destruct kvs as [|[k0 v0] kvs'] eqn:Ekvs; [congruence|]. rewrite <- Ekvs in *.
   assert (Hx: exists x le', le = x :: le' /\ kind_in (tk x) tbl_DECL_START = true).
-  { rewrite Ekvs in HS, HF. destruct (RoundTrip.Spell_cons_inv P _ _ _ _ HS) as [x [le' [-> [Hkx _]]]]. exists x, le'. split; [reflexivity|].
-    pose proof (Forall_inv HF) as Hk0. cbn [fst] in Hk0. rewrite Hkx. exact (proj2 (proj2 (proj2 (simple_kind_facts k0 Hk0)))). }
+  { pose proof HS as HS'. rewrite Ekvs in HS'. destruct (RoundTrip.Spell_cons_inv P _ _ _ _ HS') as [x [le' [-> [Hkx _]]]]. exists x, le'. split; [reflexivity|].
+    rewrite Hkx. exact Hk0. }
   destruct Hx as [x [le' [El Hxd]]]. pose proof HU1 as HU1'. rewrite El in HU1'. cbn [app] in HU1'.
   destruct (peek_kind_up P s1 x _ HU1') as [s2 [H2 [HU2 HC2]]].
   change (x :: le' ++ rpt :: l0) with ((x :: le') ++ rpt :: l0) in HU2. rewrite <- El in HU2.
-  destruct (type_name_run kvs Hne HF s2 le rpt l0 HS HU2 Hrp) as [f0 [N [s3 [H3 [HU3 [HR3 HN]]]]]].
+  destruct (type_name_run kvs HT s2 le rpt l0 HS HU2 Hrp) as [f0 [N [s3 [H3 [HU3 [HR3 HN]]]]]].
   assert (Hrpk: kind_eqb (tk rpt) K_RPAREN = true) by (rewrite Hrp; reflexivity).
   destruct (accept_hit P s3 rpt _ K_RPAREN HU3 Hrpk) as [s4 [H4 [HU4 HC4]]].
   exists (S f0), N, s4. split; [|split; [exact HU4|split; [cost_tac|exact HN]]].
@@ -258,16 +302,16 @@ Proof.
 Qed.
 
 (* ---- a cast: ( type-name ) cast-expression ---- *)
-Lemma cast_type : forall kts ko Xo, kts <> [] -> Forall (fun kv => kind_in (fst kv) tbl_TYPE_SPEC_SIMPLE = true) kts ->
+Lemma cast_type : forall kts ko Xo, TyOK kts ->
   first_ok ko -> CastS P ko Xo ->
   CastS P ((K_LPAREN, s2l "(") :: kts ++ (K_RPAREN, s2l ")") :: ko) (VNode C_Cast [tn_emb (map snd kts); Xo] None).
 Proof.
-  intros kts ko Xo Hne HF [k [v [rest [Ek [_ [Hlb _]]]]]] HO s la n l HS HU Hq.
+  intros kts ko Xo HT [k [v [rest [Ek [_ [Hlb _]]]]]] HO s la n l HS HU Hq.
   destruct (RoundTrip.Spell_cons_inv P _ _ _ _ HS) as [lp [l1 [-> [Hlp [_ HS1]]]]].
   destruct (RoundTrip.Spell_app_inv P _ _ _ HS1) as [lt [l2 [-> [HSt HS2]]]].
   destruct (RoundTrip.Spell_cons_inv P _ _ _ _ HS2) as [rpt [lo [-> [Hrp [_ HSo]]]]].
   cbn [app] in HU. rewrite <- app_assoc in HU. cbn [app] in HU.
-  destruct (tptn_type kts Hne HF s lp lt rpt _ Hlp HSt Hrp HU) as [f1 [Nt [s1 [H1 [HU1 [HR1 HNt]]]]]].
+  destruct (tptn_type kts HT s lp lt rpt _ Hlp HSt Hrp HU) as [f1 [Nt [s1 [H1 [HU1 [HR1 HNt]]]]]].
   pose proof HSo as HSo0. rewrite Ek in HSo. destruct (RoundTrip.Spell_cons_inv P _ _ _ _ HSo) as [x [lo' [-> [Hkx _]]]]. cbn [app] in HU1.
   destruct (peek_kind_up P s1 x _ HU1) as [s2 [H2 [HU2 HC2]]].
   change (x :: lo' ++ n :: l) with ((x :: lo') ++ n :: l) in HU2.
@@ -280,11 +324,11 @@ Proof.
 Qed.
 
 (* ---- sizeof ( type-name ) ---- *)
-Lemma sizeof_type : forall kts, kts <> [] -> Forall (fun kv => kind_in (fst kv) tbl_TYPE_SPEC_SIMPLE = true) kts ->
+Lemma sizeof_type : forall kts, TyOK kts ->
   CastS P ((K_SIZEOF, s2l "sizeof") :: (K_LPAREN, s2l "(") :: kts ++ [(K_RPAREN, s2l ")")])
           (VNode C_UnaryOp [VStr (s2l "sizeof"); tn_emb (map snd kts)] None).
 Proof.
-  intros kts Hne HF s la n l HS HU Hq.
+  intros kts HT s la n l HS HU Hq.
   destruct (RoundTrip.Spell_cons_inv P _ _ _ _ HS) as [t [l0 [-> [Hk [Hv HS0]]]]].
   destruct (RoundTrip.Spell_cons_inv P _ _ _ _ HS0) as [lp [l1 [-> [Hlp [_ HS1]]]]].
   destruct (RoundTrip.Spell_app_inv P _ _ _ HS1) as [lt [l2 [-> [HSt HS2]]]].
@@ -294,7 +338,7 @@ Proof.
   destruct (tptn_no_paren_c P s t _ HU HnoLP) as [s1 [H1 [HU1 HC1]]].
   destruct (peek_kind_up P s1 t _ HU1) as [s2 [H2 [HU2 HC2]]].
   destruct (advance_up P s2 t _ HU2) as [s3 [H3 [HU3 HC3]]].
-  destruct (tptn_type kts Hne HF s3 lp lt rpt _ Hlp HSt Hrp HU3) as [f1 [Nt [s4 [H4 [HU4 [HR4 HNt]]]]]].
+  destruct (tptn_type kts HT s3 lp lt rpt _ Hlp HSt Hrp HU3) as [f1 [Nt [s4 [H4 [HU4 [HR4 HNt]]]]]].
   exists (S (S (S f1))), (mkN P C_UnaryOp [VStr (tv t); Nt] (Some (mkCoord P (curfile P s4) (tp t)))), s4.
   split; [|split; [exact HU4|split; [unfold mkN; cbn [strip map]; rewrite Hv, HNt; reflexivity|cost_tac]]].
   intros f Hf. destruct f as [|[|[|f]]]; try lia. rewrite (cast_eq P). unfold bind at 1. rewrite H1.
